@@ -142,8 +142,13 @@ func genC06(r *mrand.Rand, idx int) c06Case {
 				var parts []string
 				for j := 0; j < r.Intn(4); j++ {
 					a := newAddr(kind)
-					parts = append(parts, gen.Pick(r, []string{"", " ", "  "})+a+gen.Pick(r, []string{"", " "}))
-					op.Names = append(op.Names, "")
+					name := ""
+					if r.Intn(2) == 0 {
+						// list entries with a display name (one without a comma: the setter splits the string at commas)
+						name = gen.Pick(r, []string{"Toni Tester", "Tina T. Tester", "Jürgen Müller", "日本 太郎", "O'Neil \"The Boss\"", "semi; colon: name", "(paren) name"})
+					}
+					parts = append(parts, gen.Pick(r, []string{"", " ", "  "})+fmtAddr(name, a)+gen.Pick(r, []string{"", " "}))
+					op.Names = append(op.Names, name)
 					op.Addrs = append(op.Addrs, a)
 				}
 				if r.Intn(4) == 0 {
